@@ -80,7 +80,8 @@ OV == <<"O1", "O2">>     \* the two @overload signatures of a stub function
 QV == <<"Q1", "Q2">>     \* the two @overload signatures of a runtime function
 
 \* ---- cells -----------------------------------------------------------------------------------
-RDef == [rk |-> "abs", rdoc |-> TRUE, rann |-> TRUE, rpar |-> "two", rov |-> FALSE, irk |-> "abs", ibare |-> FALSE]
+RDef == [rk |-> "abs", rdoc |-> TRUE, rann |-> TRUE, rpar |-> "two", rov |-> FALSE, irk |-> "abs", ibare |-> FALSE,
+         rtg |-> FALSE]     \* rtg: declared under `if TYPE_CHECKING:` in the runtime module (visitor: runtime = FALSE)
 SDef == [sk |-> "abs", sdoc |-> TRUE, sann |-> TRUE, sret |-> TRUE, spar |-> "same", sov |-> FALSE, isk |-> "abs"]
 IRK == {"abs", "fun", "att", "cls", "al_ext", "al_fun"}
 ISK == {"abs", "fun", "att", "cls", "al", "al_fun", "ovo"}   \* al: import from a module that is not loaded; al_fun: from `tgt`
@@ -92,6 +93,8 @@ RSide ==
            d \in B, a \in B, o \in B, n \in {"two", "none"}}
   \cup {[RDef EXCEPT !.rk = "att", !.rdoc = d, !.rann = a] : d \in B, a \in B}
   \cup {[RDef EXCEPT !.rk = k] : k \in {"al_ext", "al_fun", "al_cls", "al_att"}}
+  \cup {[RDef EXCEPT !.rk = "cls", !.irk = i, !.rtg = TRUE] : i \in IRK}       \* type-guarded runtime members
+  \cup {[RDef EXCEPT !.rk = k, !.rtg = TRUE] : k \in {"fun", "att"}}
 SSide ==
   {SDef}
   \cup {[SDef EXCEPT !.sk = "cls", !.sdoc = d, !.isk = i] : d \in B, i \in ISK}
@@ -107,14 +110,14 @@ Interacts(rk, sk) ==
   \/ rk \in {"fun", "al_fun"} /\ sk \in {"fun", "ovo"}
   \/ rk \in {"att", "al_att"} /\ sk = "att"
   \/ rk \in {"cls", "al_cls"} /\ sk = "cls"
-Mk(r, s) == [rk |-> r.rk, rdoc |-> r.rdoc, rann |-> r.rann, rpar |-> r.rpar, rov |-> r.rov, irk |-> r.irk, ibare |-> r.ibare,
+Mk(r, s) == [rk |-> r.rk, rtg |-> r.rtg, rdoc |-> r.rdoc, rann |-> r.rann, rpar |-> r.rpar, rov |-> r.rov, irk |-> r.irk, ibare |-> r.ibare,
              sk |-> s.sk, sdoc |-> s.sdoc, sann |-> s.sann, sret |-> s.sret, spar |-> s.spar, sov |-> s.sov, isk |-> s.isk]
 \* canonical cells: bits that cannot matter are pinned to their defaults
 Canon(r, s) ==
   /\ (r.ibare => r.irk \in {"fun", "att", "cls"})
   /\ (~Interacts(r.rk, s.sk) => RIsDef(r) /\ SIsDef(s))
 FullCells == {Mk(rs[1], rs[2]) : rs \in {x \in RSide \X SSide : Canon(x[1], x[2])}}
-KindCells == {c \in FullCells : /\ c.rdoc /\ c.rann /\ c.rpar = "two" /\ ~c.rov /\ ~c.ibare
+KindCells == {c \in FullCells : /\ ~c.rtg /\ c.rdoc /\ c.rann /\ c.rpar = "two" /\ ~c.rov /\ ~c.ibare
                                 /\ c.sdoc /\ c.sann /\ c.sret /\ c.spar = "same" /\ ~c.sov}
 AbsCell == Mk(RDef, SDef)
 
@@ -173,6 +176,8 @@ TObj(id) ==
     [] id[2] \in {"at_a", "at_b"} -> At("T", "T")
     [] OTHER -> [Blank EXCEPT !.k = "class", !.doc = "T", !.mem = ClassMem(id, TRUE), !.ord = <<"u", "v">>]
 
+\* everything a runtime module declares under `if TYPE_CHECKING:` is built with runtime = FALSE by the visitor
+TG(c, o) == IF c.rtg /\ o.k # "absent" THEN [o EXCEPT !.rt = FALSE] ELSE o
 InitHeap(ca, cb, md) ==
   [id \in Ids |->
      LET c == IF id[2] = "b" THEN cb ELSE ca IN
@@ -181,11 +186,11 @@ InitHeap(ca, cb, md) ==
        [] id = ModS -> ModObj("S", <<SHas(ca), SHas(cb)>>, Tag(md \in {"both", "st"}, "S"),
                               [NoOvd EXCEPT !["a"] = IF ca.sk = "ovo" THEN OV ELSE <<>>,
                                             !["b"] = IF cb.sk = "ovo" THEN OV ELSE <<>>])
-       [] id[1] = "R" /\ id[3] = "" -> RObj(c, id[2])
+       [] id[1] = "R" /\ id[3] = "" -> TG(c, RObj(c, id[2]))
        [] id[1] = "S" /\ id[3] = "" -> SObj(c, id[2])
-       [] id[1] = "R" /\ id[3] = "u" -> IF c.rk = "cls" THEN (IF c.irk = "al_fun" THEN Al(FnPath[id[2]]) ELSE RInnerU(c)) ELSE Blank
+       [] id[1] = "R" /\ id[3] = "u" -> IF c.rk = "cls" THEN TG(c, IF c.irk = "al_fun" THEN Al(FnPath[id[2]]) ELSE RInnerU(c)) ELSE Blank
        [] id[1] = "S" /\ id[3] = "u" -> IF c.sk = "cls" THEN (IF c.isk = "al_fun" THEN Al(FnPath[id[2]]) ELSE SInnerU(c)) ELSE Blank
-       [] id[1] = "R" -> IF c.rk = "cls" THEN Fn("R", "R", "R", <<>>, "pq") ELSE Blank   \* v
+       [] id[1] = "R" -> IF c.rk = "cls" THEN TG(c, Fn("R", "R", "R", <<>>, "pq")) ELSE Blank   \* v
        [] OTHER -> IF c.sk = "cls" THEN Fn("S", "S", "S", <<>>, "pq") ELSE Blank]          \* v
 
 \* ---- the runs ----------------------------------------------------------------------------------
@@ -497,7 +502,7 @@ TopKinds == {c \in KindCells : c.irk = "abs" /\ c.isk = "abs"}
 BothOrders(X, Y) == (cellA \in X /\ cellB \in Y) \/ (cellA \in Y /\ cellB \in X)
 FunFun == CHOOSE c \in KindCells : c.rk = "fun" /\ c.sk = "fun"
 \* quick tier: the four groups of presence bits are varied one group at a time
-Groups(c) == (IF ~c.rdoc \/ ~c.sdoc THEN 1 ELSE 0) + (IF ~c.rann \/ ~c.sann \/ ~c.sret \/ c.spar # "same" \/ c.rpar # "two" THEN 1 ELSE 0)
+Groups(c) == (IF c.rtg THEN 1 ELSE 0) + (IF ~c.rdoc \/ ~c.sdoc THEN 1 ELSE 0) + (IF ~c.rann \/ ~c.sann \/ ~c.sret \/ c.spar # "same" \/ c.rpar # "two" THEN 1 ELSE 0)
              + (IF c.rov \/ c.sov THEN 1 ELSE 0) + (IF c.irk # "abs" \/ c.isk # "abs" \/ c.ibare THEN 1 ELSE 0)
 QuickCells == {c \in FullCells : Groups(c) <= 1}
 
@@ -512,7 +517,7 @@ Init ==
                             \/ BothOrders(TopKinds, Ctx4) /\ mdoc = "both"
                             \/ cellA \in KindCells \ TopKinds /\ cellB \in Ctx4 /\ mdoc = "both"
                             \/ cellA = FunFun /\ cellB = AbsCell /\ mdoc \in {"rt", "st", "none"}
-       [] Dom = "wide"   -> \/ cellA \in FullCells /\ cellB \in Ctx6 /\ mdoc = "both"
+       [] Dom = "wide"   -> \/ cellA \in FullCells /\ cellB \in Ctx4 \cup {AbsCell} /\ mdoc = "both"
                             \/ BothOrders(KindCells, Ctx6) /\ mdoc = "both"
                             \/ cellA = FunFun /\ cellB \in Ctx6 /\ mdoc \in {"rt", "st", "none"}
        [] OTHER          -> cellA \in KindCells /\ cellB \in KindCells /\ mdoc = "both"    \* "kinds"
